@@ -164,7 +164,7 @@ def side_case(seed):
 def run(ctx):
     quick = ctx.tier == 'quick'
     lib.stage_proof(ctx, PROP_FILES, ['Check/C17.vo'])
-    n = 150 if quick else 2500
+    n = 150 if quick else 5000
     cases, metas = [], []
     for k in range(n):
         cs = ctx.rng.getrandbits(48)
@@ -184,7 +184,7 @@ def run(ctx):
         cases.append(lit)
         metas.append({'desc': {'gen': 'gen_int_case', 'case_seed': cs, 'case': d}, 'tags': {'which': d['which']}})
     bad = lib.stage_correspondence(ctx, 'tdmd', REQ, 'check_C17', cases, metas)
-    n_side = 300 if quick else 5000
+    n_side = 300 if quick else 15000
     if bad:
         n_side *= 3
     for k in range(n_side):
